@@ -260,16 +260,75 @@ theorem sumDT_getD (ns : List (DT × Rat × Nat)) : (sumDT ns).getD .integer = p
   · subst h; rfl
   · simp [h]
 
+/-! ### the running sum, left to right -/
+
+theorem foldl_sumStep_fst : ∀ (ns : List (DT × Rat × Nat)) (acc : Bool × Rat),
+    (ns.foldl sumStep acc).1 = (acc.1 || (ns.map (·.1)).any DT.isFloating) := by
+  intro ns
+  induction ns with
+  | nil => intro acc; simp
+  | cons n ns ih => intro acc; simp [List.foldl_cons, ih, sumStep, Bool.or_assoc]
+
+theorem sumLR_snoc (ns : List (DT × Rat × Nat)) (n : DT × Rat × Nat) :
+    sumLR (ns ++ [n]) = addNum ((ns.map (·.1)).any DT.isFloating || n.1.isFloating) (sumLR ns) n.2.1 := by
+  simp only [sumLR, List.foldl_append, List.foldl_cons, List.foldl_nil, sumStep, foldl_sumStep_fst, Bool.false_or]
+
+/-- without xsd:double / xsd:float operands the running sum is the exact sum -/
+theorem foldl_sumStep_exact : ∀ (ns : List (DT × Rat × Nat)) (v : Rat), (ns.map (·.1)).any DT.isFloating = false →
+    (ns.foldl sumStep (false, v)).2 = v + sumRat (ns.map (·.2.1)) := by
+  intro ns
+  induction ns with
+  | nil => intro v _; simp [sumRat, Rat.add_zero]
+  | cons n ns ih =>
+    intro v h
+    simp only [List.map_cons, List.any_cons, Bool.or_eq_false_iff] at h
+    simp only [List.foldl_cons, sumStep, Bool.false_or, h.1, addNum, Bool.false_eq_true, if_false, List.map_cons, sumRat]
+    rw [ih _ h.2, Rat.add_assoc]
+
+theorem sumLR_exact (ns : List (DT × Rat × Nat)) (h : (ns.map (·.1)).any DT.isFloating = false) :
+    sumLR ns = sumRat (ns.map (·.2.1)) := by
+  rw [sumLR, foldl_sumStep_exact ns 0 h, Rat.zero_add]
+
+theorem roundF_neg (v : Rat) : F.roundF (-v) = - F.roundF v := by
+  unfold F.roundF
+  have hn : (-v).num = -v.num := Rat.neg_num v
+  have hd : (-v).den = v.den := Rat.neg_den v
+  rw [hn, hd, Int.natAbs_neg]
+  by_cases h0 : v.num = 0
+  · simp [h0, F.roundPQ, F.meRat]
+  · by_cases h : v.num < 0
+    · have h' : ¬ (-v.num < 0) := by omega
+      rw [if_neg h', if_pos h, Rat.neg_neg]
+    · have h' : -v.num < 0 := by omega
+      rw [if_pos h', if_neg h]
+
+theorem numericBase_op : ∀ d ∈ numericBase, d.isNumericOp = true := by decide
+
+/-- the running datatype of a SUM is floating iff some operand was -/
+theorem promoteAll_floating : ∀ (ds : List DT) (d : DT), d ∈ numericBase → (∀ x ∈ ds, x.isNumericOp = true) →
+    (promoteAll d ds).isFloating = (d.isFloating || ds.any DT.isFloating) := by
+  intro ds
+  induction ds with
+  | nil => intro d _ _; simp [promoteAll]
+  | cons x xs ih =>
+    intro d h hx
+    simp only [promoteAll]
+    obtain ⟨c, hc, hcb⟩ := promo_closed h (hx x List.mem_cons_self)
+    obtain ⟨c', hc', _, hfl⟩ := promo_float (numericBase_op d h) (hx x List.mem_cons_self)
+    rw [hc] at hc'; cases hc'
+    rw [hc, Option.getD_some, ih c hcb (fun y hy => hx y (List.mem_cons_of_mem _ hy)), hfl]
+    simp [Bool.or_assoc]
+
 /-! ### SUM -/
 
 theorem sum_inv (a : AggSpec) (hk : a.kind = .sum) (rows : List Row) :
-    ∃ seen, accRun a rows = .sum (sumRat ((numArgs a rows).map (·.2.1))) (maxScale ((numArgs a rows).map (·.2.2)))
+    ∃ seen, accRun a rows = .sum (sumLR (numArgs a rows)) (maxScale ((numArgs a rows).map (·.2.2)))
         (sumDT (numArgs a rows)) seen ∧ (a.dist = true → ∀ t, t ∈ seen ↔ t ∈ numTerms a rows) := by
-  refine accRun_induction a (fun rows st => ∃ seen, st = .sum (sumRat ((numArgs a rows).map (·.2.1)))
+  refine accRun_induction a (fun rows st => ∃ seen, st = .sum (sumLR (numArgs a rows))
       (maxScale ((numArgs a rows).map (·.2.2))) (sumDT (numArgs a rows)) seen ∧
       (a.dist = true → ∀ t, t ∈ seen ↔ t ∈ numTerms a rows)) ?_ ?_ rows
   · have e0 : numTerms a [] = [] := rfl
-    exact ⟨[], by simp [initAcc, hk, numArgs, e0, dedupIf, firstOcc, sumRat, maxScale, sumDT],
+    exact ⟨[], by simp [initAcc, hk, numArgs, e0, dedupIf, firstOcc, sumLR, maxScale, sumDT],
       fun _ t => by simp [e0]⟩
   · rintro rows r st ⟨seen, rfl, hseen⟩
     have hops := numArgs_ops a rows
@@ -297,15 +356,24 @@ theorem sum_inv (a : AggSpec) (hk : a.kind = .sum) (rows : List Row) :
             obtain ⟨n, hn', rfl⟩ := List.mem_map.1 hy
             exact hops n hn')
         obtain ⟨c, hc, hcb⟩ := promo_closed hbase hd_op
+        have hcf : c.isFloating = (((numArgs a rows).map (·.1)).any DT.isFloating || d.isFloating) := by
+          obtain ⟨c', hc', _, hfl⟩ := promo_float (numericBase_op _ hbase) hd_op
+          rw [hc] at hc'; cases hc'
+          rw [hfl, promoteAll_floating _ _ (by decide) (by
+            intro y hy
+            obtain ⟨n, hn', rfl⟩ := List.mem_map.1 hy
+            exact hops n hn')]
+          rfl
         have hsome : (numericOf t).isSome = true := by simp [hn]
         have happ : numTerms a (rows ++ [r]) = numTerms a rows ++ [t] := by simp [numTerms_snoc, he, hsome]
         have hfm : ∀ xs : List Term, (xs ++ [t]).filterMap numericOf = xs.filterMap numericOf ++ [(d, x, s)] := by
           intro xs; simp [List.filterMap_append, hn]
-        have step : ∀ seen', .sum (sumRat ((numArgs a rows).map (·.2.1)) + x) (max (maxScale ((numArgs a rows).map (·.2.2))) s)
-            (some c) seen' = AccSt.sum (sumRat (((numArgs a rows) ++ [(d, x, s)]).map (·.2.1)))
+        have step : ∀ seen', .sum (addNum c.isFloating (sumLR (numArgs a rows)) x) (max (maxScale ((numArgs a rows).map (·.2.2))) s)
+            (some c) seen' = AccSt.sum (sumLR ((numArgs a rows) ++ [(d, x, s)]))
               (maxScale (((numArgs a rows) ++ [(d, x, s)]).map (·.2.2))) (sumDT ((numArgs a rows) ++ [(d, x, s)])) seen' := by
           intro seen'
-          simp only [List.map_append, List.map_cons, List.map_nil, sumRat_snoc, maxScale_snoc, sumDT,
+          rw [sumLR_snoc, ← hcf]
+          simp only [List.map_append, List.map_cons, List.map_nil, maxScale_snoc, sumDT,
             List.append_eq_nil_iff, List.cons_ne_self, and_false, if_false, promoteAll_snoc, hc, Option.getD_some,
             reduceCtorEq]
         cases hd : a.dist with
@@ -352,14 +420,14 @@ def AvgDT (ns : List (DT × Rat × Nat)) (dt : Option DT) : Prop :=
   (ns ≠ [] → ∃ d0, dt = some d0 ∧ d0.isNumericOp = true ∧ d0.isFloating = (ns.map (·.1)).any DT.isFloating)
 
 theorem avg_inv (a : AggSpec) (hk : a.kind = .avg) (rows : List Row) :
-    ∃ seen dt, accRun a rows = .avg (sumRat ((numArgs a rows).map (·.2.1))) (maxScale ((numArgs a rows).map (·.2.2)))
+    ∃ seen dt, accRun a rows = .avg (sumLR (numArgs a rows)) (maxScale ((numArgs a rows).map (·.2.2)))
         (numArgs a rows).length dt seen ∧
       AvgDT (numArgs a rows) dt ∧ (a.dist = true → ∀ t, t ∈ seen ↔ t ∈ numTerms a rows) := by
-  refine accRun_induction a (fun rows st => ∃ seen dt, st = .avg (sumRat ((numArgs a rows).map (·.2.1)))
+  refine accRun_induction a (fun rows st => ∃ seen dt, st = .avg (sumLR (numArgs a rows))
       (maxScale ((numArgs a rows).map (·.2.2))) (numArgs a rows).length dt seen ∧ AvgDT (numArgs a rows) dt ∧
       (a.dist = true → ∀ t, t ∈ seen ↔ t ∈ numTerms a rows)) ?_ ?_ rows
   · have e0 : numTerms a [] = [] := rfl
-    refine ⟨[], none, by simp [initAcc, hk, numArgs, e0, dedupIf, firstOcc, sumRat, maxScale], ?_, fun _ t => by simp [e0]⟩
+    refine ⟨[], none, by simp [initAcc, hk, numArgs, e0, dedupIf, firstOcc, sumLR, maxScale], ?_, fun _ t => by simp [e0]⟩
     simp [AvgDT, numArgs, e0, dedupIf, firstOcc]
   · rintro rows r st ⟨seen, dt, rfl, hdt, hseen⟩
     simp only [AccSt.update]
@@ -397,13 +465,18 @@ theorem avg_inv (a : AggSpec) (hk : a.kind = .avg) (rows : List Row) :
             rw [hcfl, hfl]
             simp [List.any_append]
         obtain ⟨c, hc, hcdt⟩ := hnew
-        have step : ∀ seen', AccSt.avg (sumRat ((numArgs a rows).map (·.2.1)) + x)
+        have step : ∀ seen', AccSt.avg (addNum c.isFloating (sumLR (numArgs a rows)) x)
             (max (maxScale ((numArgs a rows).map (·.2.2))) s) ((numArgs a rows).length + 1)
-            (some c) seen' = .avg (sumRat (((numArgs a rows) ++ [(d, x, s)]).map (·.2.1)))
+            (some c) seen' = .avg (sumLR ((numArgs a rows) ++ [(d, x, s)]))
               (maxScale (((numArgs a rows) ++ [(d, x, s)]).map (·.2.2)))
               ((numArgs a rows) ++ [(d, x, s)]).length (some c) seen' := by
           intro seen'
-          simp only [List.map_append, List.map_cons, List.map_nil, sumRat_snoc, maxScale_snoc, List.length_append,
+          have hcf : c.isFloating = (((numArgs a rows).map (·.1)).any DT.isFloating || d.isFloating) := by
+            obtain ⟨d0, h0, _, hfl⟩ := hcdt.2 (by simp)
+            cases h0
+            rw [hfl]; simp [List.any_append]
+          rw [sumLR_snoc, ← hcf]
+          simp only [List.map_append, List.map_cons, List.map_nil, maxScale_snoc, List.length_append,
             List.length_cons, List.length_nil]
         cases hd : a.dist with
         | false =>
